@@ -90,20 +90,27 @@ theorem cUpTo_bounds {T : List Tx} {cs : List CTx} {c : Nat} {m : Mem} (hlog : L
     exact hlog.maxle tx htx
 
 /-- segments, tree and runs after the manifest of a compaction -/
+theorem frontier_ge2 {N : List Nat} {c : Nat} {p : PImg} (h : PagerOK N c p) : 2 ≤ frontier p := by
+  have := h.booted.bm
+  have := h.booted.nextPage
+  unfold frontier; omega
+
 theorem storeOK_compact {T : List Tx} {cs cs' : List CTx} {p0 pF : PImg} {covered : List Nat} {n : Nat} {m : Mem}
-    (hst : StoreOK T cs p0) (hcg : CG p0 (scan cs).proot (allProps T) covered n pF)
+    (hst : StoreOK T cs p0) (hcg : CG p0 (scan cs).proot (allProps T) covered (frontier p0) n pF)
     (h1 : ∀ q ∈ allProps T, q ∈ (logRuns (scan cs).ckpt cs).flatMap (·.props) ∨ q ∈ covered)
     (h2 : (scan cs).proot = 0 → covered = [])
     (mruns : m.runs = logRuns (scan cs).ckpt cs) (mroot : m.proot = (scan cs).proot) (mptop : m.ptop = (scan cs).ptop)
-    (k0 root : Nat) (top : Bool) (hk0 : k0 = p0.hdr.nextPage)
+    (k0 root : Nat) (top : Bool)
     (hseg : ∃ s, segFind pF k0 = some s ∧ s.edges = cEdges m)
     (hsame : cProps m = [] → (root, top) = (m.proot, m.ptop))
     (htree : cProps m ≠ [] → root ≠ 0 ∧ top = false ∧ ∃ t, treeFind pF root = some t ∧ TreeOK (allProps T) (covered ++ cProps m) t)
     (hsegs : (scan cs').segs = k0 :: (scan cs).segs) (hroot : (scan cs').proot = root) (htop : (scan cs').ptop = top)
     (hruns : logRuns (scan cs').ckpt cs' = []) : StoreOK T cs' pF := by
-  have hold : ∀ k ∈ (scan cs).segs, segFind pF k = segFind p0 k := fun k hk => hcg.segOld k (hst.segLt k hk)
+  have hold : ∀ k ∈ (scan cs).segs, segFind pF k = segFind p0 k := fun k hk =>
+    hcg.segOld k (by have := hst.segLt k hk; unfold frontier; omega)
   obtain ⟨s, hs, hse⟩ := hseg
-  refine ⟨?_, fun s hs => Nat.lt_of_lt_of_le (hcg.segKeys s hs) hcg.np, fun t ht => Nat.lt_of_lt_of_le (hcg.treeKeys t ht) hcg.np,
+  refine ⟨?_, fun s hs => ⟨Nat.lt_of_lt_of_le (hcg.segKeys s hs) hcg.np, Nat.lt_of_lt_of_le (hcg.segKeys s hs) hcg.bmlo⟩,
+    fun t ht => ⟨Nat.lt_of_lt_of_le (hcg.treeKeys t ht) hcg.np, Nat.lt_of_lt_of_le (hcg.treeKeys t ht) hcg.bmlo⟩,
     ?_, by rw [hruns]; intro q hq; simp at hq, ?_, ?_⟩
   · intro k hk
     rw [hsegs] at hk
@@ -179,21 +186,23 @@ theorem inv_after_pages {cfg : Cfg} {T : List Tx} {fs : FS} {m : Mem} {cs : List
     (h : InvOpen T fs m cs c) (pp : PagesPost cfg T fs m covered)
     (h1 : ∀ q ∈ allProps T, q ∈ (logRuns (scan cs).ckpt cs).flatMap (·.props) ∨ q ∈ covered)
     (h2 : (scan cs).proot = 0 → covered = []) :
-    InvOpen T (fs.steps (ioSteps (pagesA cfg m fs.pv).1)) { m with pm := (pagesA cfg m fs.pv).2.1.pm } cs c := by
+    InvOpen T (fs.steps (ioSteps (pagesA cfg m fs.pv).1))
+      { m with pm := (pagesA cfg m fs.pv).2.1.pm, bm := (pagesA cfg m fs.pv).2.1.bm } cs c := by
   obtain ⟨hw, hd, hr⟩ := steps_pager_wal _ pp.pager.facts.2 fs
   obtain ⟨n, hcg⟩ := pp.cg
   rw [h.mroot] at hcg
-  have hst := hcg.storeOK h.store rfl h1 h2
+  have hst := hcg.storeOK h.store (Nat.le_refl _) rfl h1 h2
   have hold : ∀ k ∈ (scan cs).segs, segFind (fs.steps (ioSteps (pagesA cfg m fs.pv).1)).pd k = segFind fs.pd k :=
-    fun k hk => hcg.segOld k (h.store.segLt k hk)
+    fun k hk => hcg.segOld k (by have := h.store.segLt k hk; unfold frontier; omega)
   exact
     { pj := by rw [pp.pj]; intro e he; simpa using he
       wal := ⟨by rw [hr]; exact h.wal.ren, by rw [hd, hw]; exact h.wal.wdur, fun k hk => by rw [hw]; exact h.wal.stable k (by rw [← hd]; exact hk)⟩
       log := h.log
-      pager := hcg.pagerOK h.pager
+      pager := hcg.pagerOK h.pager (frontier_ge2 h.pager)
       store := hst
       full := by rw [hcg.hdr.len]; exact h.full
-      mpm := pp.hdr.symm
+      mpm := by show SameKey _ (pagesA cfg m fs.pv).2.1.pm; rw [pp.hdr]; exact SameKey.refl _
+      mbm := by show _ ≤ (pagesA cfg m fs.pv).2.1.bm; rw [pp.pbm]; exact Nat.le_refl _
       mlen := h.mlen
       mstart := by rw [hcg.hdr.start]; exact h.mstart
       mexts := h.mexts
@@ -237,12 +246,12 @@ theorem compact_new {cfg : Cfg} {T : List Tx} {fs : FS} {m : Mem} {cs : List CTx
     (pagesA cfg m fs.pv).2.2.2.1 (pagesA cfg m fs.pv).2.2.2.2 (cUpTo m) (by rw [h.mepoch]; omega) h.mtxid (Nat.le_of_lt b1) b2
   obtain ⟨n, hcg⟩ := pp.cg
   rw [h.mroot] at hcg
-  refine ⟨hsc, hruns, c', hlog', (hcg.pagerOK h.pager).raise (by rw [hcg.hdr.len, h.full]; exact hc'), ?_⟩
+  refine ⟨hsc, hruns, c', hlog', (hcg.pagerOK h.pager (frontier_ge2 h.pager)).raise (by rw [hcg.hdr.len, h.full]; exact hc'), ?_⟩
   have htree' : cProps m ≠ [] → (pagesA cfg m fs.pv).2.2.2.1 ≠ 0 ∧ (pagesA cfg m fs.pv).2.2.2.2 = false ∧
       ∃ t, treeFind (fs.steps (ioSteps (pagesA cfg m fs.pv).1)).pd (pagesA cfg m fs.pv).2.2.2.1 = some t ∧
         TreeOK (allProps T) (covered ++ cProps m) t := pp.tree
   exact storeOK_compact (m := m) h.store hcg h1 h2 h.mruns h.mroot h.mptop (pagesA cfg m fs.pv).2.2.1 (pagesA cfg m fs.pv).2.2.2.1
-    (pagesA cfg m fs.pv).2.2.2.2 pp.k0 pp.seg (fun hp => by rw [← pp.same hp]) htree'
+    (pagesA cfg m fs.pv).2.2.2.2 pp.seg (fun hp => by rw [← pp.same hp]) htree'
     (by rw [hsc]) (by rw [hsc]) (by rw [hsc]) (by rw [hsc]; exact hruns)
 
 end Nervus.Crash
@@ -309,7 +318,7 @@ theorem compact_safe {cfg : Cfg} {T : List Tx} {fs : FS} {m : Mem} {cs : List CT
     have hst : WalStable cs (fs.steps ((ioSteps (pagesA cfg m fs.pv).1).take n)) :=
       ⟨by rw [hr]; exact h.wal.ren, by rw [hd, hw]; exact h.wal.wdur, fun k hk => by rw [hw]; exact h.wal.stable k (by rw [← hd]; exact hk)⟩
     obtain ⟨k, hk, hW⟩ := hst.crashW mode
-    exact ⟨T, by simp, cs, c, by rw [hW]; exact hst.stable k hk, h.log, hcg.pagerOK h.pager, hcg.storeOK h.store rfl h1 h2⟩
+    exact ⟨T, by simp, cs, c, by rw [hW]; exact hst.stable k hk, h.log, hcg.pagerOK h.pager (frontier_ge2 h.pager), hcg.storeOK h.store (Nat.le_refl _) rfl h1 h2⟩
   apply safeAlong_append sa1
   -- (2) tail cut
   have hinv := inv_after_pages h pp h1 h2
@@ -317,11 +326,11 @@ theorem compact_safe {cfg : Cfg} {T : List Tx} {fs : FS} {m : Mem} {cs : List CT
   generalize hfsP : fs.steps (ioSteps (pagesA cfg m fs.pv).1) = fsP at hinv hwP hdP hrP
   have hnew := compact_new h hruns pp h1 h2
   rw [hfsP] at hnew
-  have htP : TailPre cfg fsP { m with pm := (pagesA cfg m fs.pv).2.1.pm } := by
+  have htP : TailPre cfg fsP { m with pm := (pagesA cfg m fs.pv).2.1.pm, bm := (pagesA cfg m fs.pv).2.1.bm } := by
     rcases ht with ht | ht
     · left; rw [hwP]; exact ht
     · right; exact ht
-  have hwsEq : ({ m with pm := (pagesA cfg m fs.pv).2.1.pm } : Mem).ws fsP.wf = m.ws fs.wf := by
+  have hwsEq : ({ m with pm := (pagesA cfg m fs.pv).2.1.pm, bm := (pagesA cfg m fs.pv).2.1.bm } : Mem).ws fsP.wf = m.ws fs.wf := by
     simp [Mem.ws, hwP]
   obtain ⟨sa0, hpj0, hpd0, hst0, hclean0⟩ := cut_state hinv htP
   rw [hwsEq] at sa0 hpj0 hpd0 hst0 hclean0
@@ -378,16 +387,19 @@ end Nervus.Crash
 
 namespace Nervus.Crash
 
-theorem foldl_onlySetPm : ∀ (l : List MemUpd), OnlySetPm l → ∀ m : Mem, l.foldl applyUpd m = { m with pm := lastPm l m.pm }
+theorem foldl_onlySetPm : ∀ (l : List MemUpd), OnlySetPm l → ∀ m : Mem,
+    l.foldl applyUpd m = { m with pm := lastPm l m.pm, bm := lastBm l m.bm }
   | [], _, m => rfl
   | u :: l, h, m => by
-    obtain ⟨pm, rfl⟩ := h u (by simp)
-    simp only [List.foldl, lastPm]
-    rw [foldl_onlySetPm l (fun u hu => h u (by simp [hu]))]
-    rfl
+    rcases h u (by simp) with ⟨pm, rfl⟩ | ⟨b, rfl⟩
+    all_goals
+      simp only [List.foldl, lastPm, lastBm]
+      rw [foldl_onlySetPm l (fun u hu => h u (by simp [hu]))]
+      rfl
 
-structure CompactMem (m mF : Mem) (pmF : Meta) (root : Nat) (top : Bool) (k0 : Nat) (edges : List Nat) (ep : Nat) : Prop where
+structure CompactMem (m mF : Mem) (pmF : Meta) (bmF : Nat) (root : Nat) (top : Bool) (k0 : Nat) (edges : List Nat) (ep : Nat) : Prop where
   pm : mF.pm = pmF
+  bm : mF.bm = bmF
   idStart : mF.idStart = m.idStart
   idLen : mF.idLen = m.idLen
   exts : mF.exts = m.exts
@@ -402,9 +414,9 @@ structure CompactMem (m mF : Mem) (pmF : Meta) (root : Nat) (top : Bool) (k0 : N
 theorem compact_mem (m : Mem) (L cut : List MemUpd) (hL : OnlySetPm L) (hcut : cut = [] ∨ cut = [MemUpd.tailChecked])
     (up root : Nat) (top : Bool) (k0 : Nat) (edges : List Nat) (ep : Nat) :
     CompactMem m ((L ++ ([MemUpd.bumpTxid] ++ cut ++ [MemUpd.compacted up root top k0 edges ep])).foldl applyUpd m)
-      (lastPm L m.pm) root top k0 edges ep := by
+      (lastPm L m.pm) (lastBm L m.bm) root top k0 edges ep := by
   rw [List.foldl_append, foldl_onlySetPm L hL]
-  rcases hcut with rfl | rfl <;> exact ⟨rfl, rfl, rfl, rfl, rfl, rfl, rfl, rfl, rfl, rfl, rfl⟩
+  rcases hcut with rfl | rfl <;> exact ⟨rfl, rfl, rfl, rfl, rfl, rfl, rfl, rfl, rfl, rfl, rfl, rfl⟩
 
 /-- **a completed compaction re-establishes the handle invariant** (same committed list, new
     manifest) and leaves a log without torn tail (unless there was nothing to compact) -/
@@ -432,11 +444,11 @@ theorem compact_post {cfg : Cfg} {T : List Tx} {fs : FS} {m : Mem} {cs : List CT
     simp [segEdges, hs, hse]
   rw [steps_append]
   generalize hfsP : fs.steps (ioSteps (pagesA cfg m fs.pv).1) = fsP at hinv hwP hdP hrP hnew hsegE
-  have htP : TailPre cfg fsP { m with pm := (pagesA cfg m fs.pv).2.1.pm } := by
+  have htP : TailPre cfg fsP { m with pm := (pagesA cfg m fs.pv).2.1.pm, bm := (pagesA cfg m fs.pv).2.1.bm } := by
     rcases ht with ht | ht
     · left; rw [hwP]; exact ht
     · right; exact ht
-  have hwsEq : ({ m with pm := (pagesA cfg m fs.pv).2.1.pm } : Mem).ws fsP.wf = m.ws fs.wf := by
+  have hwsEq : ({ m with pm := (pagesA cfg m fs.pv).2.1.pm, bm := (pagesA cfg m fs.pv).2.1.bm } : Mem).ws fsP.wf = m.ws fs.wf := by
     simp [Mem.ws, hwP]
   obtain ⟨_, hpj0, hpd0, hst0, hclean0⟩ := cut_state hinv htP
   rw [hwsEq] at hpj0 hpd0 hst0 hclean0
@@ -460,7 +472,7 @@ theorem compact_post {cfg : Cfg} {T : List Tx} {fs : FS} {m : Mem} {cs : List CT
   have hwf2 : (fs1.steps [Step.ws]).wf = fs0.wf ++ frames recs := by simp [FS.steps, FS.step, hw1]
   have hCM := compact_mem m (memUpds (pagesA cfg m fs.pv).1) (cutUpds cfg (m.ws fs.wf)) pp.setpm (cutUpds_cases cfg (m.ws fs.wf))
     (cUpTo m) (pagesA cfg m fs.pv).2.2.2.1 (pagesA cfg m fs.pv).2.2.2.2 (pagesA cfg m fs.pv).2.2.1 (cEdges m) (m.epoch + 1)
-  rw [pp.lastpm] at hCM
+  rw [pp.lastpm, pp.lastbm] at hCM
   generalize (memUpds (pagesA cfg m fs.pv).1 ++ ([MemUpd.bumpTxid] ++ cutUpds cfg (m.ws fs.wf) ++
     [MemUpd.compacted (cUpTo m) (pagesA cfg m fs.pv).2.2.2.1 (pagesA cfg m fs.pv).2.2.2.2 (pagesA cfg m fs.pv).2.2.1 (cEdges m)
       (m.epoch + 1)])).foldl applyUpd m = mF at hCM
@@ -473,6 +485,7 @@ theorem compact_post {cfg : Cfg} {T : List Tx} {fs : FS} {m : Mem} {cs : List CT
         store := by rw [hpd2]; exact hstore'
         full := by rw [hpd2]; exact hinv.full
         mpm := by rw [hCM.pm, hpd2]; exact hinv.mpm
+        mbm := by rw [hCM.bm, hpd2]; exact hinv.mbm
         mlen := by rw [hCM.idLen]; exact h.mlen
         mstart := by rw [hCM.idStart, hpd2]; exact hinv.mstart
         mexts := by rw [hCM.exts]; exact h.mexts
